@@ -3,6 +3,9 @@ CONSTANTS
   Classes = {"parrot", "shuffle", "randomized", "custom", "psk"}
   Servers = {"plain", "hrr", "hrrcookie"}
   Modes = {"nosess", "both"}
+  Kinds = {"SetClientRandom", "SetSNI", "RemoveSNI", "EditSuites", "EditSessionId", "ExtInsert", "ExtRemove", "ExtALPN"}
+  SNIAll = FALSE
+  SkipVerify = FALSE
   FixRemoveSNI = TRUE
 INIT Init
 NEXT Next
